@@ -249,7 +249,7 @@ func (fx *FuncCtx) memberGoal(st *State, fams []famInst, rid, addr Term, extra [
 	// a region allocated during this call (negative id; a merged "nil ? fresh : given" slice is
 	// not syntactically an allocation) is not part of the caller-visible frame
 	fresh := tFalse
-	if !isAllocTerm(rid) && strings.Contains(rid.S, "alloc") {
+	if !isAllocTerm(rid) && !strings.HasSuffix(rid.S, "$rid") {
 		fresh = Lt(rid, IntLit(0))
 	}
 	if fx.discard == 0 {
